@@ -29,6 +29,7 @@ type assignmentBuilder struct {
 	rhsVar            gmodel.Var       // The variable on the right-hand side of the assignment.
 	additionalArgVars []gmodel.Var     // The additional arguments to use in the assignment.
 	funcName          string           // The name of the method being generated.
+	retError          bool             // Whether the method being generated returns an error.
 	copiers           []*bmodel.Copier // The list of copiers used in the generated code.
 }
 
@@ -50,6 +51,7 @@ func newAssignmentBuilder(
 		rhsVar:            rhsVar,
 		additionalArgVars: additionalArgs,
 		funcName:          m.Name(),
+		retError:          m.RetError(),
 	}
 }
 
@@ -97,6 +99,12 @@ func (b *assignmentBuilder) structToStruct(lhsStruct, rhsStruct bmodel.Node, add
 
 		var a gmodel.Assignment
 		a, err = b.matchStructFieldAndStruct(lhsField, rhsStruct, additionalArgs)
+		if err == nil && a != nil && a.RetError() && !b.retError {
+			// The method has no error result so that the error has nowhere to go.
+			logger.Warnf("%v: no assignment for %v: it needs a function that returns an error while the method doesn't",
+				b.fset.Position(b.methodPos), lhsField.AssignExpr())
+			a = gmodel.NoMatchField{LHS: lhsField.AssignExpr()}
+		}
 		if err == nil && a != nil {
 			assignments = append(assignments, a)
 		}
